@@ -16,7 +16,8 @@ namespace DriverC13
 open Proto Shutdown
 
 inductive Op where
-  | conn | unary (c s : Nat) | stream (c n s : Nat)
+  | conn | connStalled | connBad | hello (c : Nat)
+  | unary (c s : Nat) | stream (c n s : Nat)
   | cstream (c m s : Nat) | bidi (c m n s : Nat) | reqMsg (k : Nat)
   | adv (k : Nat) | sig | endInc | accErr
   | dropConn (c : Nat) | cancel (k : Nat) | wait (secs : Nat)
@@ -37,6 +38,9 @@ def splitColon (cs : List Char) : List (List Char) :=
 def parseOp (body : List Char) : Option Op :=
   match body with
   | ['C'] => some .conn
+  | ['H'] => some .connStalled
+  | ['H', 'b'] => some .connBad
+  | 'h' :: rest => (natOf rest).map .hello
   | ['G'] => some .sig
   | ['E'] => some .endInc
   | ['T'] => some (.wait ageLimit)
@@ -80,23 +84,30 @@ structure Script where
   /-- loopback TCP through `serve_with_shutdown(addr, signal)` / `serve(addr)`: connections are
   observed from their client ends, the open count at resolution is not observable -/
   tcp : Bool := false
+  /-- the server has a TLS acceptor (`Server::tls_config`): connections go through
+  `ServerIoStream`'s handshake set before the accept loop sees them -/
+  tls : Bool := false
 
 def parseScript (case : List String) : Option Script :=
   match case with
   | tag :: m :: _b :: _p :: a :: rest =>
     if !tag.startsWith "sc" then none else
     let g := match m with
-      | "g" => some (true, false) | "n" => some (false, false)
-      | "t" => some (true, true) | "u" => some (false, true)
+      | "g" => some (true, false, false) | "n" => some (false, false, false)
+      | "t" => some (true, true, false) | "u" => some (false, true, false)
+      | "gs" => some (true, false, true)
       | _ => none
     let ag := match a with | "a0" => some false | "a1" => some true | _ => none
     match g, ag, rest.mapM parseStep with
-    | some (g, tcp), some ag, some steps =>
+    | some (g, tcp, tls), some ag, some steps =>
       -- a TcpIncoming cannot be ended or made to fail from outside, and the TCP variant has no
       -- non-quiescent steps
       if tcp && steps.any (fun st => !st.settled || (match st.op with
           | .endInc | .accErr => true | _ => false)) then none
-      else some { graceful := g, age := ag, steps := steps, tcp := tcp }
+      -- stalled / non-TLS clients only make sense against a TLS server
+      else if !tls && steps.any (fun st => match st.op with
+          | .connStalled | .connBad | .hello _ => true | _ => false) then none
+      else some { graceful := g, age := ag, steps := steps, tcp := tcp, tls := tls }
     | _, _, _ => none
   | _ => none
 
@@ -183,6 +194,7 @@ structure Sim where
   callMap : List (Nat × Nat)     -- call id → (connection, index within the connection)
   accW : List Bool               -- oracle: was connection c accepted
   startW : List Bool             -- oracle: was call k started
+  tls : Bool := false            -- the server is configured with TLS
   now : Nat := 0                 -- virtual clock, whole seconds
   accAt : List (Option Nat) := []  -- virtual time at which connection c was accepted
 
@@ -206,7 +218,8 @@ def callIdx (s : State) : List (Nat × Nat) :=
 
 /-- steps whose outcome a later operation could still pre-empt -/
 def Sim.eager (m : Sim) : List Label :=
-  ((connIdx m.st).filter m.wantAcc).map Label.loopAccept
+  (connIdx m.st).map Label.tlsTake ++ (connIdx m.st).map Label.tlsDone
+  ++ ((connIdx m.st).filter m.wantAcc).map Label.loopAccept
   ++ (connIdx m.st).map Label.hsDone
   ++ ((callIdx m.st).filter fun cj => m.wantStart cj.1 cj.2).map fun cj => Label.callStart cj.1 cj.2
 
@@ -214,6 +227,7 @@ def Sim.candidates (m : Sim) : List Label :=
   m.eager
   ++ (callIdx m.st).map (fun cj => Label.produce cj.1 cj.2)
   ++ (callIdx m.st).map (fun cj => Label.deliver cj.1 cj.2)
+  ++ (connIdx m.st).map Label.tlsFail
   ++ [Label.loopSig, Label.loopErr, Label.loopEnd, Label.afterLoop]
   ++ (connIdx m.st).flatMap (fun c =>
         [Label.connSig c, Label.connAge c, Label.final c, Label.connBreak c, Label.connDropWatcher c])
@@ -273,7 +287,10 @@ def Sim.issue (m : Sim) (c : Nat) (chunks : List (List Item)) (req : Nat := 0) :
   { m with callMap := m.callMap ++ [(c, j)] }
 
 def Sim.doOp (m : Sim) : Op → Sim
-  | .conn => m.apply .offer
+  | .conn => if m.tls then m.apply (.offerTls true false) else m.apply .offer
+  | .connStalled => m.apply (.offerTls false false)
+  | .connBad => m.apply (.offerTls false true)
+  | .hello c => m.apply (.clientHello c)
   | .unary c s => m.issue c (unaryChunks s)
   | .stream c n s => m.issue c (streamChunks n s)
   -- client-streaming: the answer is unary-shaped, produced once the request stream is complete
@@ -308,7 +325,8 @@ def Sim.doStep (m : Sim) (st : Step) : Sim :=
 
 def simulate (sc : Script) (biased : Bool) (accW startW : List Bool) : Sim :=
   let m0 : Sim := { st := init sc.graceful biased sc.age, t := 0, closedAt := [], doneAt := [],
-                    resolvedAt := none, callMap := [], accW := accW, startW := startW }
+                    resolvedAt := none, callMap := [], accW := accW, startW := startW,
+                    tls := sc.tls }
   let m := sc.steps.foldl Sim.doStep m0
   -- drain: every client completes its request stream, every handler runs freely
   let m := m.callMap.foldl (fun m cj =>
@@ -385,10 +403,11 @@ def analyse (sc : Script) : List ConnInfo × List CallInfo :=
   let quietUpTo (g : Nat) : Bool := match firstShutdownGroup with | some h => g < h | none => true
   let idxd := sg.zipIdx
   let conns : List ConnInfo := idxd.filterMap fun ((st, g), i) =>
+    let afterSig := (sc.steps.take i).any fun s => match s.op with | .sig => true | _ => false
     match st.op with
-    | .conn =>
-      let afterSig := (sc.steps.take i).any fun s => match s.op with | .sig => true | _ => false
-      some { afterSignal := afterSig, mustAccept := quietUpTo g, group := g }
+    | .conn => some { afterSignal := afterSig, mustAccept := quietUpTo g, group := g }
+    -- a client that does not (yet) complete a TLS handshake need not be accepted
+    | .connStalled | .connBad => some { afterSignal := afterSig, mustAccept := false, group := g }
     | _ => none
   let callOps : List (Nat × Nat × Nat × List Spec.Shutdown.Out) := idxd.filterMap fun ((st, g), i) =>
     match st.op with
